@@ -153,6 +153,9 @@ where
     pid_pubcomp: HashSet<PacketIdType>,
 
     need_store: bool,
+    // The CONNECT of the current connection attempt started a new session (clean start): what
+    // has been stored or recorded since then already belongs to that new session
+    new_session_at_connect: bool,
     // Store for retransmission packets
     store: GenericStore<PacketIdType>,
 
@@ -262,6 +265,7 @@ where
             pid_pubrec: HashSet::default(),
             pid_pubcomp: HashSet::default(),
             need_store: false,
+            new_session_at_connect: false,
             store: GenericStore::new(),
             offline_publish: false,
             auto_pub_response: false,
@@ -1286,6 +1290,7 @@ where
         self.topic_alias_recv = None;
         self.publish_recv.clear();
         self.need_store = false;
+        self.new_session_at_connect = false;
         self.pid_suback.clear();
         self.pid_unsuback.clear();
         self.is_client = is_client;
@@ -1410,6 +1415,7 @@ where
         // Handle clean_session flag
         if packet.clean_start() {
             self.clear_store_related();
+            self.new_session_at_connect = true;
         } else {
             self.need_store = true;
         }
@@ -1505,7 +1511,8 @@ where
         }
 
         self.status = ConnectionStatus::Connected;
-        if session_present {
+        if session_present || self.new_session_at_connect {
+            // (after a clean start the store only holds what was handed over since the CONNECT)
             events.extend(self.send_stored());
         } else {
             // Session not present: nothing of an earlier session may be retransmitted
@@ -1590,7 +1597,8 @@ where
 
         self.status = ConnectionStatus::Connected;
 
-        if session_present {
+        if session_present || self.new_session_at_connect {
+            // (after a clean start the store only holds what was handed over since the CONNECT)
             events.extend(self.send_stored());
         } else {
             // Session not present: nothing of an earlier session may be retransmitted
@@ -2709,6 +2717,7 @@ where
                 }
                 if packet.clean_session() {
                     self.clear_store_related();
+                    self.new_session_at_connect = true;
                 } else {
                     self.need_store = true;
                 }
@@ -2819,7 +2828,9 @@ where
             Ok((packet, _consumed)) => {
                 if packet.return_code() == ConnectReturnCode::Accepted {
                     self.status = ConnectionStatus::Connected;
-                    if packet.session_present() {
+                    if packet.session_present() || self.new_session_at_connect {
+                        // (after a clean start the store only holds what was published since
+                        // the CONNECT: it belongs to the new session and goes out now)
                         let resent = self.send_stored();
                         let transmitted = resent
                             .iter()
@@ -2913,7 +2924,9 @@ where
                         }
                     }
 
-                    if packet.session_present() {
+                    if packet.session_present() || self.new_session_at_connect {
+                        // (after a clean start the store only holds what was published since
+                        // the CONNECT: it belongs to the new session and goes out now)
                         let resent = self.send_stored();
                         let transmitted = resent
                             .iter()
